@@ -13,6 +13,12 @@ use std::time::Instant;
 
 pub const VERIF_ROOT: &str = "/verif";
 
+/// Where evidence and newly saved replays are written (default: /verif). Experiments against
+/// scratch copies of the repository set VERIF_OUT so that they never touch the committed files.
+pub fn out_root() -> String {
+    std::env::var("VERIF_OUT").unwrap_or_else(|_| VERIF_ROOT.to_string())
+}
+
 pub fn repo_root() -> String {
     std::env::var("VERIF_REPO").unwrap_or_else(|_| "/repo".to_string())
 }
@@ -321,7 +327,7 @@ impl Ctx {
             "wall_s": wall,
             "violations": self.violations.len(),
         });
-        let dir = format!("{VERIF_ROOT}/evidence");
+        let dir = format!("{}/evidence", out_root());
         let _ = std::fs::create_dir_all(&dir);
         let path = format!("{dir}/{}.json", self.id);
         if let Err(e) = std::fs::write(&path, serde_json::to_string_pretty(&ev).unwrap()) {
@@ -389,7 +395,7 @@ pub struct ReplayFile {
 pub fn save_replay<T: Serialize>(id: &str, campaign: &str, case: &T, fail: &Fail) -> String {
     let case = serde_json::to_value(case).unwrap_or(Value::Null);
     let h = stable_hash(&(campaign, serde_json::to_string(&case).unwrap_or_default()));
-    let dir = format!("{VERIF_ROOT}/replays/{id}");
+    let dir = format!("{}/replays/{id}", out_root());
     let _ = std::fs::create_dir_all(&dir);
     let path = format!("{dir}/{campaign}-{h:016x}.json");
     let rf = ReplayFile {
